@@ -1,6 +1,7 @@
 package main
 
 import (
+	"bytes"
 	"encoding/json"
 	"fmt"
 	"reflect"
@@ -20,6 +21,15 @@ func init() {
 		redact.RegisterRedactErrorFn(scriptedHook)
 		defer redact.RegisterRedactErrorFn(nil)
 		return c08Sink(redact.RedactableString(cs.R), cs.Bytes, cs.Impl, cs.Pre, cs.Shape)
+	}
+	replayers["C08/held-operand"] = func(c *Ctx, raw json.RawMessage) string {
+		var cs struct {
+			R      []byte
+			Bytes  bool
+			C1, C2 int
+		}
+		json.Unmarshal(raw, &cs)
+		return c08Held(redact.RedactableString(cs.R), cs.Bytes, cs.C1, cs.C2)
 	}
 	checks["C08"] = checkC08
 	rules["C08"] = "every redactable obtained from the library by <=2 rounds of printing/joining x every directive (minus %T,%p) at top level (identity) and inside 14 holder shapes (homomorphism against a marker-free placeholder), as string and as bytes; Sprint(Sprint(a))==Sprint(a) over the universe; Join/JoinTo/Sprintf concatenation laws over all lists of <=3; distinct = distinct outputs"
@@ -398,6 +408,19 @@ func checkC08(c *Ctx) {
 		w.SeenS(string(r))
 	})
 	redact.RegisterRedactErrorFn(nil)
+	nHeld := len(c08HeldCalls)
+	c.Section("C08/held-operand", map[string]interface{}{"redactables": len(seeds), "forms": 2, "calls": nHeld, "pairs": "every ordered pair of calls on the SAME operand held in a slice with spare capacity", "oracle": "both results are the concatenation; the first result, the operand and the memory behind the operand are unchanged after the second call"}, len(seeds)*nHeld, func(i int, w *Worker) {
+		r, c1 := seeds[i/nHeld], i%nHeld
+		for c2 := 0; c2 < nHeld; c2++ {
+			for _, asBytes := range []bool{false, true} {
+				w.Eval()
+				if dt := c08Held(r, asBytes, c1, c2); dt != "" {
+					w.Fail("held-operand", map[string]interface{}{"R": []byte(r), "Bytes": asBytes, "C1": c1, "C2": c2}, dt)
+				}
+			}
+		}
+		w.SeenS(string(r))
+	})
 	c.Section("C08/reprint", map[string]interface{}{"argument_lists": len(lists), "rounds": 3}, len(lists), func(i int, w *Worker) {
 		w.Eval()
 		if d := c08Reprint(lists[i], w.SeenS); d != "" {
@@ -434,4 +457,90 @@ func checkC08(c *Ctx) {
 	})
 	replayers["C08/concat-long"] = replayers["C08/concat"]
 	c.Assume("redactables are those obtainable from the library within two rounds of printing/joining from 13 seeds; deeper histories are covered by the 3-round re-print identity (a fixpoint after one round)")
+}
+
+// --- held operands: the caller keeps the redactable (in a reused scratch slice with room to spare) and prints it
+// again; printing copies, so neither an earlier result nor the caller's memory may change.
+
+var c08HeldCalls = []string{"Sprintf(%s: first)", "Sprintf(%v|other|%d)", "Sprint(r, tail)", "StringBuilder.Printf(%v %d); UnsafeString", "Sprintf(%s%s) twice", "StringBuilder.Print(r); SafeString", "Fprint(r, x)", "Sprintf(- %s)", "Join(r, r)"}
+
+// c08HeldCall returns the result and what it must be
+func c08HeldCall(k int, op interface{}, r string) (got, want string) {
+	switch k {
+	case 0:
+		return string(redact.Sprintf("%s: first", op)), r + ": first"
+	case 1:
+		return string(redact.Sprintf("%v|other|%d", op, redact.Safe(12345))), r + "|other|12345"
+	case 2:
+		return string(redact.Sprint(op, redact.RedactableString(" A"+mStart+"t"+mEnd))), r + " A" + mStart + "t" + mEnd
+	case 3:
+		var sb redact.StringBuilder
+		sb.Printf("%v %d", op, redact.Safe(1))
+		sb.UnsafeString("u")
+		return string(sb.RedactableString()), r + " 1" + mStart + "u" + mEnd
+	case 4:
+		return string(redact.Sprintf("%s%s", op, op)), r + r
+	case 5:
+		var sb redact.StringBuilder
+		sb.Print(op)
+		sb.SafeString(" built")
+		sb.SafeRune('!')
+		return string(sb.RedactableString()), r + " built!"
+	case 6:
+		var out bytes.Buffer
+		redact.Fprint(&out, op, redact.RedactableString("-x"))
+		return out.String(), r + "-x"
+	case 7:
+		return string(redact.Sprintf("- %s", op)), "- " + r
+	default:
+		if rs, ok := op.(redact.RedactableString); ok {
+			return string(redact.Join("/", []redact.RedactableString{rs, rs})), r + "/" + r
+		}
+		var sb redact.StringBuilder
+		redact.JoinTo(&sb, "/", []redact.RedactableBytes{op.(redact.RedactableBytes), op.(redact.RedactableBytes)})
+		return string(sb.RedactableString()), r + "/" + r
+	}
+}
+
+func c08Held(r redact.RedactableString, asBytes bool, c1, c2 int) string {
+	const spare = 96
+	back := make([]byte, len(r), len(r)+spare)
+	copy(back, r)
+	full := back[:cap(back)]
+	for i := len(r); i < len(full); i++ {
+		full[i] = 0xAA
+	}
+	var op interface{} = redact.RedactableBytes(back)
+	if !asBytes {
+		op = redact.RedactableString(r)
+	}
+	var g1, w1, g2, w2 string
+	if pv, pan := recoverTo(func() {
+		g1, w1 = c08HeldCall(c1, op, string(r))
+	}); pan {
+		return fmt.Sprintf("%s on %q panics: %v", c08HeldCalls[c1], r, pv)
+	}
+	if g1 != w1 {
+		return fmt.Sprintf("%s with r=%q (bytes=%v) = %q, want %q", c08HeldCalls[c1], r, asBytes, g1, w1)
+	}
+	if pv, pan := recoverTo(func() {
+		g2, w2 = c08HeldCall(c2, op, string(r))
+	}); pan {
+		return fmt.Sprintf("%s on %q panics: %v", c08HeldCalls[c2], r, pv)
+	}
+	if g2 != w2 {
+		return fmt.Sprintf("%s and then %s on the same operand r=%q (bytes=%v): the second = %q, want %q", c08HeldCalls[c1], c08HeldCalls[c2], r, asBytes, g2, w2)
+	}
+	if g1 != w1 {
+		return fmt.Sprintf("%s on r=%q (bytes=%v) returned %q; after %s on the same operand that result reads %q", c08HeldCalls[c1], r, asBytes, w1, c08HeldCalls[c2], g1)
+	}
+	if string(back) != string(r) {
+		return fmt.Sprintf("the operand %q was changed to %q by printing it", r, back)
+	}
+	for i := len(r); i < len(full); i++ {
+		if full[i] != 0xAA {
+			return fmt.Sprintf("printing the operand %q (held in a slice of capacity %d) wrote into the caller's memory behind it: %q", r, cap(back), full[len(r):])
+		}
+	}
+	return ""
 }
